@@ -6,6 +6,8 @@ import numpy as np
 from .. import core, gen
 
 ID = 'C07'
+FOUNDATIONS = ['harness.foundation.filteriter']   # the models use the closed form proved by F6 (filterIter_refines)
+LEAN_TARGETS = ['Mahotas.Proofs.FilterIter']
 LEVEL = 'proof'
 MODES = ['nearest', 'wrap', 'reflect', 'mirror', 'constant', 'ignore']
 DTYPES = ['uint8', 'int32', 'float64', 'int8', 'uint16', 'int64', 'uint64', 'float32', 'bool']
